@@ -1,5 +1,6 @@
 """Ldhcp6duid (DHCPv6 DUID codec sub-check: C19, C05, C06, C07, C01) configuration for ./check"""
 CONF = {
+    'coq_sample': 10,   # cases re-evaluated inside Coq by vm_compute against the extracted runner's output
     'interesting': ['truncated-prefix-of-valid', 'octet-every-value', 'type-change', 'decode-error', 'malformed', 'residue-after-error', 'error-residue', 'dirty-buffer', 'roundtrip', 'out-of-domain',
                     'field-extreme', 'seed', 'duid-type-1', 'duid-type-2', 'duid-type-3', 'duid-type-4'],
     'rule': 'DUIDs of type LLT, EN, LL and unknown types (0, 4, 256, 65535; every low type octet) with 0..20 trailing octets; every truncation of each type decoded into a fresh object and after an LLT, an EN and an LL DUID; all ordered pairs of types on a reused object; Encode of decoded values (also of error residues) and of field-built DUIDs with short/exact/long fixed-size fields under all buffer kinds; round trips of decoded and of in-domain field-built DUIDs (empty payload); DUIDs of the client/server-id options of the DHCPv6 packet literals of layers/*_test.go; a malformed stream.',
